@@ -561,6 +561,8 @@ pub fn run(ctx: &mut Ctx) {
     run_jobs(ctx, "choice_uniformity_long_sources", long_choice_jobs(), trials);
     run_jobs(ctx, "choice_uniformity_huge_sources", huge_choice_jobs(), trials);
     wide_count_check(ctx);
+    // coverage-guided search over the same strategies and oracles (thorough tier; see ptfuzz.rs)
+    crate::ptfuzz::thorough(ctx, &[("c18", 16, 1_000_000)]);
 }
 
 pub fn replay(ctx: &mut Ctx, sub: &str, case: &Value) {
